@@ -118,6 +118,19 @@ func readEverythingKey(data []byte, key string) {
 	if it, err := rd.RefsFor(oid); err == nil {
 		scanRefs(it)
 	}
+	// the same bytes behind a merged view (what a stack hands out)
+	if m, err := NewMerged([]Table{rd}, rd.HashID()); err == nil {
+		if it, err := m.SeekRef(key); err == nil {
+			scanRefs(it)
+		}
+		if it, err := m.RefsFor(oid); err == nil {
+			scanRefs(it)
+		}
+		if it, err := m.SeekLog("a", 1); err == nil {
+			var l LogRecord
+			it.NextLog(&l)
+		}
+	}
 	VerifCover("opened")
 }
 
